@@ -271,13 +271,16 @@ def any_of(*fs):
     return out
 
 
-def path_condition(body, target, former):
+def path_condition(body, target, former, asserts=False):
     """the condition under which control reaches `target` inside `body`, as one formula (conjunction of the dominating
-       guards of guards.guards_at, each expanded to its canonical form)"""
+       guards of guards.guards_at, each expanded to its canonical form).  ASSERTs are not branch conditions: what they
+       state is taken to hold and is left out unless `asserts` is set"""
     from .guards import guards_at
     out = T
     for c, pol, src in guards_at(body, target):
         if isinstance(c, tuple):
+            continue
+        if not asserts and isinstance(src, dict) and src.get('k') == 'assert':
             continue
         f = former.form(c)
         out = all_of(out, f if pol else neg(f))
